@@ -102,7 +102,10 @@ def opC09ExcTable (_ : Json) : Except String Json :=
 
 open Model.Retry in
 def c09Select (j : Json) : Except String (ServiceConfig × String × String) := do
-  let cfg ← c09ConfigOfJson (← j.getObjVal? "config")
+  -- "configs": the files of all `retry-config=` options in order (`Options.build` reads the last); or one "config"
+  let cfg ← match j.getObjVal? "configs" with
+    | .ok (Json.arr a) => do pure (optsRetry (← a.toList.mapM c09ConfigOfJson))
+    | _ => c09ConfigOfJson (← j.getObjVal? "config")
   let svc ← (← j.getObjVal? "service").getStr?
   let meth ← (← j.getObjVal? "method").getStr?
   pure (cfg, svc, meth)
@@ -162,7 +165,8 @@ def opC09Call (j : Json) : Except String Json := do
   match methodDefaults cfg svc meth with
   | .error e => pure (errJson e)
   | .ok d =>
-    let e := emittedDefaults d
+    let isMixin := match j.getObjVal? "mixin" with | .ok (Json.bool true) => true | _ => false
+    let e := if isMixin then mixinEntry else emittedDefaults d      -- a mixin RPC: the literal `default_timeout=None` entry
     let rarg : Arg (Option Params) ← match j.getObjVal? "retry" with
       | .ok (Json.str "default") => pure .default
       | .ok Json.null => pure (.given none)
@@ -186,6 +190,17 @@ def opC09Call (j : Json) : Except String Json := do
       ("waits", jarr (t.waits.map ratJson)),
       ("bounds", jarr bounds)] ++ resultJson t.result))
 
+open Model.Retry in
+/-- the whole `_wrapped_methods` table of one service: {"config"|"configs", "service", "methods": [...], "mixins": [...]} -/
+def opC09Table (j : Json) : Except String Json := do
+  let j' := j.setObjVal! "method" (Json.str "")
+  let (cfg, svc, _) ← c09Select j'
+  let ms ← (← getArrL j "methods").mapM (·.getStr?)
+  let mx ← (← getArrL j "mixins").mapM (·.getStr?)
+  match wrappedTable cfg svc ms mx with
+  | .error e => pure (errJson e)
+  | .ok tab => pure (Json.mkObj [("table", jarr (tab.map fun (m, e) => jarr [Json.str m, emittedJson e]))])
+
 /-- input outside the model → `{"unsupported": reason}`, never a default -/
 def c09Wrap (f : Json → Except String Json) (j : Json) : Except String Json :=
   match f j with
@@ -194,6 +209,6 @@ def c09Wrap (f : Json → Except String Json) (j : Json) : Except String Json :=
 
 def opsC09 : List (String × (Json → Except String Json)) :=
   [("c09.to_float", opC09ToFloat), ("c09.exc_table", opC09ExcTable), ("c09.defaults", c09Wrap opC09Defaults),
-   ("c09.call", c09Wrap opC09Call)]
+   ("c09.call", c09Wrap opC09Call), ("c09.table", c09Wrap opC09Table)]
 
 end GapicModel.Driver
